@@ -590,6 +590,9 @@ def check_series_hist(case, t):
             o = get_body(body).propagate(base + timedelta(days=off))
             t.trans()
             got.append(np.array(o, dtype=float).copy())
+            if case.get("touch"):
+                o.form = "spherical"  # the caller's own object, changed in place: later answers must not notice
+                t.trans()
     except Exception as e:
         t.fail("series/history/raises", "Sun / Moon states", case, "a state", repr(e))
         return
@@ -610,7 +613,7 @@ def check_series_hist(case, t):
         if not np.array_equal(lib[:3], pts[0]):
             t.fail(f"{body.lower()}/position/history", "positions do not depend on what was asked before", case, pts[0], lib[:3], f"request #{i}")
             return
-    t.outcome(("series_hist", len(case["script"]), case["script"][0][0]))
+    t.outcome(("series_hist", len(case["script"]), case["script"][0][0], bool(case.get("touch"))))
 
 
 
@@ -771,6 +774,7 @@ def run_unit(p, t):
                     if k % p["of"] != p["chunk"]:
                         continue
                     check_case(dict(kind="series_hist", mjd=mjd, sec=sec, script=[list(x) for x in seq]), t)
+                    check_case(dict(kind="series_hist", mjd=mjd, sec=sec, script=[list(x) for x in seq], touch=True), t)
         t.sample(dict(kind="series_hist", mjd=bases[0][0], sec=bases[0][1], script=[["Sun", 0], ["Moon", 1]]))
     elif p["part"] == "temps":
         mode = {"jpl": p["config"]}
